@@ -99,7 +99,7 @@ def shard_generate(sh, part):
     import numpy as np
     from outrank.algorithms.synthetic_data_generators.cc_generator import CategoricalClassification
     rng = sh.rng('gen', part)
-    reps = 250 if sh.tier == 'quick' else 1200
+    reps = 250 if sh.tier == 'quick' else 8000
     for t in range(reps):
         kw, domains = make_case(rng)
         cc = CategoricalClassification()
